@@ -88,6 +88,19 @@ def install(plan, directory):
                 os.fsync(self.f.fileno())
                 if n < len(data) or plan[1] == plan[2]:
                     die()       # (num == den: all bytes written, crash before close)
+            if kind == "raise":
+                # the writer dies by an EXCEPTION while storing (disk full, interrupt): its cleanup code runs
+                n = (len(data) * plan[1]) // plan[2]
+                self.f.write(data[:n])
+                self.f.flush()
+                os.fsync(self.f.fileno())
+                try:
+                    self.f.close()
+                except Exception:
+                    pass
+                if plan[3] == "KeyboardInterrupt":
+                    raise KeyboardInterrupt()
+                raise OSError(28, "No space left on device")
             if kind in ("afterbyte", "offset"):
                 if kind == "afterbyte":
                     # right after the j-th INTERIOR occurrence of a byte value (0x2e is also pickle's STOP opcode)
@@ -152,7 +165,15 @@ def main():
         if plan[0] != "none":
             install(plan, directory)
         inputs, output, size = CONS[which]
-        tree = opt.search(inputs, output, size)
+        try:
+            tree = opt.search(inputs, output, size)
+        except BaseException as e:      # noqa
+            if plan[0] == "raise":
+                # death by exception: the interpreter unwinds (context managers, callbacks run) and the process ends
+                sys.stdout.write(json.dumps({"crashed": True, "how": type(e).__name__}) + "\n")
+                sys.stdout.flush()
+                os._exit(9)
+            raise
         print(json.dumps({"crashed": False, "ran": cls.ran, "complete": tree.is_complete()}))
     elif mode == "query":
         directory, split, which, cache_only = sys.argv[2:6]
